@@ -44,9 +44,9 @@ type vRegDay struct {
 }
 
 var (
-	vRegFoodRe  = regexp.MustCompile(`^\t(\S(?:.*\S)?) +: *(` + vNumPat + `)$`)
-	vRegIngRe   = regexp.MustCompile(`^\t\t *(\S(?:.*\S)?) +(` + vNumPat + `)$`)
-	vRegTotalRe = regexp.MustCompile(`^\t\t *(\S(?:.*\S)?) +(` + vNumPat + `) +(` + vNumPat + `) = *(` + vNumPat + `)$`)
+	vRegFoodRe   = regexp.MustCompile(`^\t(\S(?:.*\S)?) +: *(` + vNumPat + `)$`)
+	vRegIngRe    = regexp.MustCompile(`^\t\t *(\S(?:.*\S)?) +(` + vNumPat + `)$`)
+	vRegTotalRe  = regexp.MustCompile(`^\t\t *(\S(?:.*\S)?) +(` + vNumPat + `) +(` + vNumPat + `) = *(` + vNumPat + `)$`)
 	vRegHeaderRe = regexp.MustCompile(`^\t-- TOTAL +-+$`)
 )
 
@@ -205,7 +205,10 @@ type vBalOut struct {
 	TotalOf  string
 }
 
-var vBalRowRe = regexp.MustCompile(`^ *(` + vNumPat + `) \| ((?:  )*)(\S(?:.*\S)?)$`)
+// a displayed name may start with one blank (a path segment written " b" after
+// the separator) and may end with one: the indentation is two blanks per level,
+// an odd count means the name itself starts with a blank.
+var vBalRowRe = regexp.MustCompile(`^ *(` + vNumPat + `) \| ( *)(\S.*)$`)
 
 func vReadBalance(out string, single bool) vBalOut {
 	var b vBalOut
@@ -215,10 +218,10 @@ func vReadBalance(out string, single bool) vBalOut {
 			vFault("balance -s: missing total separator in %q", vTrunc(out, 400))
 		}
 		m := vBalRowRe.FindStringSubmatch(lines[len(lines)-1])
-		if m == nil || m[2] != "" {
+		if m == nil || len(m[2]) > 1 {
 			vFault("balance -s: unreadable total row %q", lines[len(lines)-1])
 		}
-		b.HasTotal, b.Total, b.TotalOf = true, m[1], m[3]
+		b.HasTotal, b.Total, b.TotalOf = true, m[1], m[2]+m[3]
 		lines = lines[:len(lines)-2]
 	}
 	var stack []string
@@ -228,11 +231,15 @@ func vReadBalance(out string, single bool) vBalOut {
 			vFault("balance: unreadable row %q", ln)
 		}
 		depth := len(m[2]) / 2
+		name := m[3]
+		if len(m[2])%2 == 1 {
+			name = " " + name
+		}
 		if depth > len(stack) {
 			vFault("balance: row %q is indented deeper than its predecessor allows", ln)
 		}
-		stack = append(stack[:depth], m[3])
-		b.Rows = append(b.Rows, vBalRow{Val: m[1], Depth: depth, Name: m[3], Path: strings.Join(stack, "/")})
+		stack = append(stack[:depth], name)
+		b.Rows = append(b.Rows, vBalRow{Val: m[1], Depth: depth, Name: name, Path: strings.Join(stack, "/")})
 	}
 	return b
 }
@@ -323,7 +330,8 @@ type vPrintDay struct {
 var vPrintEntryRe = regexp.MustCompile(`^  - (.+): (` + vNumPat + `)$`)
 
 // vReadPrint reads the normal form that `print` emits:
-//   DATE:\n  # name: value | # text\n  - name: v\n\n
+//
+//	DATE:\n  # name: value | # text\n  - name: v\n\n
 func vReadPrint(out string) []vPrintDay {
 	var days []vPrintDay
 	var cur *vPrintDay
